@@ -95,7 +95,7 @@ def run(ck):
     fl = ck.flow(aua)
     for s in ck.require_fact("U3.logged-in", fl, nonzero_return, E.m_calls(UR + "valid"), True, "return <non-false>"):
         x = E.strip(s.ev.get("x"))
-        if E.m_calls(UR + "authenticated")(x) and s.has(E.m_is_ref("auth_user_request"), True):
+        if E.m_calls(UR + "authenticated")(x) and s.has(E.m_is_ref(aua.params[0]["d"]), True):
             ck.ok("U3.logged-in", s.where(), "the result is auth_user_request->authenticated() of a non-null request")
         else:
             ck.violation("U3.logged-in", "U3|authenticateUserAuthenticated|result", s.where(), "authenticateUserAuthenticated returns %s" % E.key(x))
@@ -114,7 +114,7 @@ def run(ck):
     au = au[0]
     dirs = set(facts.enum("Auth::Direction").values())
     fl = ck.flow(au, switch_assume=lambda cond: dirs if UR + "direction" in E.mentions(cond) else None)
-    ck.require_fact("U4.accept-needs-login", fl, ev_return(E.m_const(OK)), LOGGED_IN & E.M(lambda t: "auth_user_request" in E.mentions(t), "of *auth_user_request"),
+    ck.require_fact("U4.accept-needs-login", fl, ev_return(E.m_const(OK)), LOGGED_IN & E.M(lambda t: au.params[0]["d"] in E.mentions(t), "of *auth_user_request"),
                     True, "return AUTH_AUTHENTICATED", why="(credentials that were rejected or never checked would be reported as authenticated)")
     ck.need(all(E.const(s.ev.get("x")) is not None for s in fl.find(ev_return())), "C46: Auth::UserRequest::authenticate has a computed return")
     tta = facts.fn(UR + "tryToAuthenticateAndSetAuthUser")
@@ -142,16 +142,19 @@ def run(ck):
     ck.rule("U5 clientAccessCheckDone: with auth_challenge (defined from answer == ACCESS_AUTH_REQUIRED || ..) true, sslBumped false and flags.accel "
             "false the error is built with status 407")
     cad = facts.fn("ClientRequestContext::clientAccessCheckDone")
-    defs = ck.local_defs(cad).get("auth_challenge", [])
-    covers = any(E.strip(n).get("k") == "call" and E.strip(n).get("f", "").endswith("operator==") and E.const(E.strip(n)["a"][0]) == code["ACCESS_AUTH_REQUIRED"]
-                 for d in defs for n in E.walk(d)) and all(E.strip(d).get("k") == "bin" and E.strip(d).get("op") == "||" for d in defs)
-    if defs and covers:
+    needs_auth = lambda n: E.strip(n).get("k") == "call" and E.strip(n).get("f", "").endswith("operator==") and E.const(E.strip(n)["a"][0]) == code["ACCESS_AUTH_REQUIRED"]
+    chal = sorted({n for n, ds in ck.local_defs(cad).items() if any(needs_auth(x) for d in ds for x in E.walk(d))})
+    ck.need(len(chal) == 1, "C46: clientAccessCheckDone: expected one local defined from answer == ACCESS_AUTH_REQUIRED, found %s" % chal)
+    defs = ck.local_defs(cad)[chal[0]]
+    if all(E.strip(d).get("k") == "bin" and E.strip(d).get("op") == "||" and any(needs_auth(x) for x in (E.strip(d)["l"], E.strip(d)["r"])) for d in defs):
         ck.ok("U5.challenge", cad.where(), "auth_challenge = (answer == ACCESS_AUTH_REQUIRED) || ...")
     else:
         ck.violation("U5.challenge", "U5|clientAccessCheckDone|auth_challenge-def", cad.where(), "auth_challenge is no longer defined as answer == ACCESS_AUTH_REQUIRED || ...")
-    fl = ck.flow(cad, tracked=["status"], assume=[(E.m_is_ref("auth_challenge"), True), (BUMPED, False), (E.m_is_mem("accel"), False),
-                                                  (E.m_calls("Acl::Answer::allowed"), False)])
-    for s in ck.sites(fl, ev_assign("ClientRequestContext::error", E.m_calls("clientBuildError")), "error = clientBuildError(..)", 1):
+    build = ev_assign("ClientRequestContext::error", E.m_calls("clientBuildError"))
+    stat = {E.strip(E.strip(ev["rhs"])["a"][1]).get("d") for b in cad.blocks.values() for ev in b["ev"] if build(ev)}
+    fl = ck.flow(cad, tracked=sorted(x for x in stat if x), assume=[(E.m_is_ref(chal[0]), True), (BUMPED, False), (E.m_is_mem("accel"), False),
+                                                                    (E.m_calls("Acl::Answer::allowed"), False)])
+    for s in ck.sites(fl, build, "error = clientBuildError(..)", 1):
         arg = E.strip(E.strip(s.ev["rhs"])["a"][1])
         v = s.env.get(arg.get("d")) if arg.get("k") == "ref" else ("c", E.const(arg))
         if v == ("c", sc["scProxyAuthenticationRequired"]):
